@@ -553,3 +553,123 @@ pub fn nm_universe() -> Vec<Case> {
     }
     v
 }
+
+// ================================================================================================
+// The "header" family: positions that rustfmt finds by SEARCHING THE SOURCE TEXT for a character (`{`, `(`,
+// `=`, `:`, `>` … via span_after / span_before / find_uncommented / str::find).  The searched character is put
+// BEFORE the intended one: in a const-generic block argument `{ N }`, an array length `[u8; { 4 + 4 }]`, a
+// string or char literal inside such a block, a comment, an attribute — in every header position (generics
+// and their defaults, supertraits, where clauses, impl headers, return types, type aliases, associated
+// items), with an empty body, a body with items and a body holding only a comment.
+// ================================================================================================
+
+/// `$E` a brace-bearing const argument, `$B` a body for the kind of item (`$BT` trait, `$BI` impl, `$BS` struct, `$BF` fn, `$BN` enum)
+pub const HDR_SHAPES: &[(&str, &str)] = &[
+    ("trait-where", "pub trait W<T, const N: usize> where T: Ch<$E> $BT\n"),
+    ("trait-where2", "trait P where [u8; $E]: Sized, Self: Ch<$E> + Sized $BT\n"),
+    ("trait-super", "trait P<const N: usize>: Ch<$E> + Other $BT\ntrait R: Ch<$E> where Self: Other $BT\n"),
+    ("trait-generics", "trait G<const N: usize = $E, T: Ch<$E> = u8> $BT\nunsafe trait H<T = [u8; $E]> where T: Copy $BT\n"),
+    ("trait-alias", "trait A<const N: usize> = Ch<$E> + Other where [u8; $E]: Sized;\n"),
+    ("impl-trait-for", "impl<T, const N: usize> Tr<$E> for S<T, $E> where T: Ch<$E>, [u8; $E]: Sized $BI\n"),
+    ("impl-inherent", "impl<const N: usize> S<$E> where [u8; $E]: Sized $BI\nimpl S<$E> $BI\nimpl<T: Ch<$E>> S<T> $BI\n"),
+    ("impl-neg-unsafe", "unsafe impl<T> Tr<$E> for [T; $E] where T: Ch<$E> $BI\nimpl<T> !Tr<$E> for S<T> where T: Ch<$E> {}\n"),
+    ("struct-where", "struct S<T> where T: Ch<$E>, [T; $E]: Sized $BS\n"),
+    ("struct-generics", "struct S<const N: usize = $E, T: Ch<$E> = [u8; $E]> $BS\n"),
+    ("struct-tuple", "struct S<T>(T, [u8; $E]) where [T; $E]: Sized;\nstruct U<const N: usize = $E>(Ch<$E>);\nstruct V<T: Ch<$E>>(pub T) where T: Copy;\n"),
+    ("struct-unit", "struct U<const N: usize = $E> where [u8; $E]: Sized;\nstruct X<T: Ch<$E>>;\n"),
+    ("enum-where", "enum E<T> where T: Ch<$E>, [T; $E]: Sized $BN\nenum F<const N: usize = $E> $BN\n"),
+    ("union-where", "union U<T: Copy> where T: Ch<$E>, [T; $E]: Sized $BS\n"),
+    ("fn-sig", "fn f<T, const N: usize>(x: [u8; $E]) -> [u8; $E] where T: Ch<$E>, [T; $E]: Sized $BF\n"),
+    ("fn-sig-ret", "fn g() -> Ch<$E> $BF\nfn h(x: Ch<$E>, y: impl Tr<$E>) -> impl Tr<$E> $BF\nfn i<T: Ch<$E>>() $BF\n"),
+    ("fn-decl", "trait Q { fn m<T>(x: [u8; $E]) -> [u8; $E] where T: Ch<$E>; fn n() where Self: Ch<$E> $BF }\nextern \"C\" { fn e(x: [u8; $E]) -> [u8; $E]; }\n"),
+    ("type-alias", "type A<T> where T: Ch<$E> = [T; $E];\ntype B<T: Ch<$E>> = T;\ntype C<const N: usize = $E> = [u8; $E];\ntype D = Ch<$E>;\n"),
+    ("assoc-items", "trait Q { type X<T>: Ch<$E> where T: Ch<$E>; const C: [u8; $E] = [0; $E]; type Y: Ch<$E> = Z<$E>; }\nimpl Q for S { type X<T> = [T; $E] where T: Ch<$E>; const C: [u8; $E] = [0; $E]; }\n"),
+    ("static-const", "const K: [u8; $E] = [0; $E];\nstatic L: Ch<$E> = Ch::<$E>::new();\nconst M: usize = $E;\n"),
+    ("exprs", "fn f() { let a: [u8; $E] = [0; $E]; let b = g::<$E>(); let c = S::<$E> { x: 1 }; let d = <Ch<$E>>::new(); match e { S::<$E> { .. } => {} } if let Ch::<$E>(x) = y {} for i in z::<$E>() {} while w::<$E>() {} let k = |x: Ch<$E>| -> Ch<$E> { x }; }\n"),
+    ("macro-def-body", "macro_rules! m { () => { trait W where Self: Ch<$E> $BT }; ($a:ty) => { impl Tr<$E> for $a where $a: Ch<$E> $BI }; }\n"),
+];
+
+pub const HDR_E: &[(&str, &str)] = &[
+    ("n", "{ N }"),
+    ("sum", "{ 4 + 4 }"),
+    ("if", "{ if true { 1 } else { 2 } }"),
+    ("str", "{ \"{\".len() }"),
+    ("chr", "{ '{' as usize }"),
+    ("cmt", "{ /* { */ 1 }"),
+    ("nested", "{ { 1 } }"),
+    ("plain", "N"),
+];
+
+/// bodies: (name, trait body, impl body, struct body, fn body, enum body)
+pub const HDR_BODIES: &[(&str, &str, &str, &str, &str, &str)] = &[
+    ("empty", "{}", "{}", "{}", "{}", "{}"),
+    ("items", "{ type Item; fn get(&self, at: usize) -> Option<&Self::Item>; }", "{ type Item = u8; fn get(&self) -> u8 { 1 } }", "{ a: T, b: u8 }", "{ let x = 1; x }", "{ A(T), B }"),
+    ("comment", "{ // only a comment\n}", "{ /* only a comment */ }", "{ // only a comment\n}", "{ // only a comment\n}", "{ /* only a comment */ }"),
+    ("attr", "{ #![allow(x)] fn f(); }", "{ #![allow(x)] fn f() {} }", "{ #[doc = \"{\"] a: T }", "{ #![allow(x)] 1 }", "{ #[doc = \"{\"] A }"),
+];
+
+/// comments, strings and attributes that hold the searched character before the intended position
+pub const HDR_COMMENT_SHAPES: &[(&str, &str)] = &[
+    ("cm-trait", "trait T /* { */ where Self: Sized /* { */ { fn f(); }\ntrait U /* : */ : V /* { */ { fn f(); }\ntrait W<T /* > */> /* { */ {}\n"),
+    ("cm-impl", "impl /* { */ S /* { */ { fn f() {} }\nimpl<T /* > */> Tr /* for */ for S<T> /* { */ where T: X /* { */ { fn f() {} }\n"),
+    ("cm-struct", "struct S /* { */ { a: u8 }\nstruct T /* ( */ (u8);\nstruct U<T /* > */>(T) /* ; */ where T: X /* ; */;\nstruct V /* ; */;\n"),
+    ("cm-enum", "enum E /* { */ { A /* ( */ (u8), B /* { */ { x: u8 }, C /* = */ = 1 }\n"),
+    ("cm-fn", "fn f /* ( */ (x: u8 /* ) */) /* -> */ -> u8 /* { */ { 1 }\nfn g<T /* > */>() /* { */ where T: X /* { */ {}\nfn h(x /* : */ : u8, y: u8 /* , */) {}\n"),
+    ("cm-items", "const C /* : */ : u8 /* = */ = 1;\nstatic S /* : */ : u8 /* = */ = 0;\ntype A /* = */ = u8;\ntype B<T> /* = */ where T: X /* = */ = T;\nmod m /* { */ { fn f() {} }\nextern \"C\" /* { */ { fn f(); }\nuse a /* :: */ ::b;\n"),
+    ("cm-exprs", "fn f() { let x /* = */ = 1; let y /* : */ : u8 /* = */ = 2; match x /* { */ { _ /* => */ => {} } if a /* { */ { } else /* { */ { } while b /* { */ { } for i /* in */ in c /* { */ { } loop /* { */ { } let s = S /* { */ { a /* : */ : 1 }; let c = |x /* | */| /* -> */ x; g /* ( */ (1); h.i /* ( */ (2); }\n"),
+    ("str-attrs", "#[doc = \"{\"]\ntrait T where Self: Sized { fn f(); }\n#[doc = \"(\"]\nstruct S(u8);\n#[cfg(feature = \"{\")]\nimpl S { fn f() {} }\n#[doc = \"=\"]\ntype A = u8;\n#[doc = \";\"]\nstruct U;\n#[doc = \"where {\"]\nfn f<T>() where T: X {}\n"),
+    ("str-headers", "impl Tr<{ \"{\".len() }> for S where S: Ch<{ \"where\".len() }> { fn f() {} }\nfn f(x: [u8; \"(\".len()]) -> [u8; \"{\".len()] { x }\nenum E { A = \"=\".len() as isize, B = '{' as isize }\n"),
+    ("macro-type", "trait T where m!({}): Sized { fn f(); }\nimpl Tr for m!({ x }) where m![{]: X { fn f() {} }\nfn f() -> m!({ }) { 1 }\nstruct S(m! { a });\ntype A = m!({);\n"),
+];
+
+pub fn hdr_options() -> Vec<Vec<(String, String)>> {
+    let s = |k: &str, v: &str| vec![(k.to_string(), v.to_string())];
+    let mut v = vec![
+        vec![],
+        s("brace_style", "AlwaysNextLine"),
+        s("brace_style", "PreferSameLine"),
+        s("where_single_line", "true"),
+        vec![("brace_style".to_string(), "AlwaysNextLine".to_string()), ("where_single_line".to_string(), "true".to_string())],
+        s("indent_style", "Visual"),
+        s("empty_item_single_line", "false"),
+        s("fn_single_line", "true"),
+        s("style_edition", "2015"),
+        s("normalize_comments", "true"),
+    ];
+    v.retain(|o| o.iter().all(|(k, val)| rustfmt_nightly::Config::is_valid_key_val(k, val)));
+    v
+}
+
+/// The header universe, in a fixed order.  id = `hdr:<shape>:<E>:<body>:<context>|w<width>|<options or base>`
+pub fn hdr_universe() -> Vec<Case> {
+    let opts = hdr_options();
+    let mut texts: Vec<(String, String)> = vec![];
+    for (name, src) in HDR_SHAPES {
+        for (en, e) in HDR_E {
+            for (bn, bt, bi, bs, bf, be) in HDR_BODIES {
+                if !src.contains("$B") && *bn != "empty" {
+                    continue;
+                }
+                let t = src.replace("$E", e).replace("$BT", bt).replace("$BI", bi).replace("$BS", bs).replace("$BF", bf).replace("$BN", be);
+                texts.push((format!("{}:{}:{}", name, en, bn), t));
+            }
+        }
+    }
+    for (name, src) in HDR_COMMENT_SHAPES {
+        texts.push((format!("{}:-:-", name), src.to_string()));
+    }
+    let mut v = vec![];
+    for (name, body) in texts {
+        for (cname, text) in [("plain", body.clone()), ("in-mod", format!("mod outer {{\n{}}}\n", body))] {
+            for w in [40usize, 100] {
+                for o in &opts {
+                    let mut cfg: Vec<(String, String)> = vec![("edition".into(), "2024".into()), ("style_edition".into(), "2024".into()), ("max_width".into(), w.to_string())];
+                    cfg = merge_cfg(&cfg, o);
+                    let oname = if o.is_empty() { "base".to_string() } else { cfg_text(o) };
+                    v.push(Case { id: format!("hdr:{}:{}|w{}|{}", name, cname, w, oname), src: text.clone(), cfg });
+                }
+            }
+        }
+    }
+    v
+}
